@@ -51,7 +51,8 @@ def uniqueness(ctx: Ctx) -> None:
         ctx.bad(R, f, tr, 'after a duplicate-label ValueError nothing raises ErrorInitIndexNonUnique: construction continues with _map None '
                 '(treated as an auto-integer index)', key='dup-raises')
     # the no-map branch is guarded by loc_is_iloc
-    guards = [n for n in walk_local(f.node) if isinstance(n, ast.If) and norm(n.test) == 'not loc_is_iloc' and tr in n.body]
+    from sfa.rules.frozen import _enclosing_tests
+    guards = [t for t, pol in _enclosing_tests(f.node, tr) if (norm(t) == 'not loc_is_iloc' and pol) or (norm(t) == 'loc_is_iloc' and not pol)]
     (ctx.ok if guards else ctx.bad)(R, f, tr, 'map construction is skipped only under loc_is_iloc' if guards else
                                     'the map construction is no longer the `not loc_is_iloc` branch', key='loc-is-iloc-guard')
     # who may pass loc_is_iloc
